@@ -13,6 +13,8 @@ F = '\x1f'      # between fields of a record
 R = '\x1e'      # after every record
 G = '\x1d'      # around the dtml-in tag
 ELSE = '\x1cELSE\x1c'
+ELSE2 = '\x1ce2\x1c'   # second literal of a multi-block else body
+SKIP = '\x1b'           # printed instead of a field whose gate is closed on this element
 MISSING = '~'
 
 FIXED = ('index', 'number', 'letter', 'Letter', 'roman', 'Roman', 'even', 'odd',
@@ -102,18 +104,22 @@ def key_of(j):
     return 'k%02d' % ((j * 37 + 11) % 101)
 
 
-def build_elements(kind, xs, vals=None):
-    """-> (elements, descriptors); descriptor: j, text (str of the item part), x, id, key"""
+def build_elements(kind, xs, vals=None, extras=None):
+    """-> (elements, descriptors); descriptor: j, text (str of the item part), x, id, key
+
+    ``extras``: per element a dict of further attributes / keys (objects and mappings only)."""
     part = PART[kind]
     elements = []
     descs = []
     for j, x in enumerate(xs):
         d = {'j': j, 'id': 'e%d' % j, 'x': None, 'key': None}
+        extra = extras[j] if extras else {}
         if part == 'obj':
-            item = Obj('e%d' % j, x)
+            item = Obj('e%d' % j, x, **extra)
             d['x'] = x
         elif part == 'map':
             item = {'id': 'e%d' % j, 'x': x}
+            item.update(extra)
             d['x'] = x
         else:
             item = vals[j]
@@ -157,26 +163,106 @@ def iff(name):
     return '<dtml-if %s>T<dtml-else>F</dtml-if>' % name
 
 
-def body_fields(kind, opts, batched, letters):
+class Syn:
+    """one of the three documented tag spellings: ``<dtml-in ..>`` / ``<!--#in ..-->`` (class HTML)
+    and the extended python format ``%(in ..)[`` (class String)"""
+
+    STYLES = ('dtml', 'comment', 'epfs')
+
+    def __init__(self, style='dtml'):
+        if style not in self.STYLES:
+            raise ValueError(style)
+        self.style = style
+
+    def var(self, name, missing=False):
+        a = name + (' missing=' + MISSING if missing else '')
+        if self.style == 'dtml':
+            return '<dtml-var %s>' % a
+        if self.style == 'comment':
+            return '<!--#var %s-->' % a
+        return '%%(%s)s' % a
+
+    def entity(self, name):
+        """``&dtml-name;`` = var name html_quote (HTML class only)"""
+        return '&dtml-%s;' % name
+
+    def open(self, tag, args=''):
+        a = tag + (' ' + args if args else '')
+        if self.style == 'dtml':
+            return '<dtml-%s>' % a
+        if self.style == 'comment':
+            return '<!--#%s-->' % a
+        return '%%(%s)[' % a
+
+    def close(self, tag, how='plain', name='seq'):
+        """how: plain | named (repeats the name) | end (``<!--#endin-->``, comment style only)"""
+        a = tag + (' ' + name if how == 'named' else '')
+        if self.style == 'dtml':
+            return '</dtml-%s>' % a
+        if self.style == 'comment':
+            return '<!--#end%s-->' % tag if how == 'end' else '<!--#/%s-->' % a
+        return '%%(%s)]' % a
+
+    def iff(self, name):
+        return self.open('if', name) + 'T' + self.open('else') + 'F' + self.close('if')
+
+    def gated(self, expr, inner):
+        """inner where the expression is true, the SKIP token elsewhere"""
+        cond = '"%s"' % expr if self.style == 'dtml' else 'expr="%s"' % expr
+        return self.open('if', cond) + inner + self.open('else') + SKIP + self.close('if')
+
+
+GROUP = {'first-x': 3, 'if:first-x': 3, 'last-x': 4, 'if:last-x': 4,
+         'first-y': 5, 'if:first-y': 5, 'last-y': 6, 'if:last-y': 6,
+         'name:x': 7, 'name:id': 7, 'sequence-start': 1, 'sequence-end': 1,
+         'if:sequence-start': 1, 'if:sequence-end': 1, 'sequence-item': 2, 'sequence-key': 2,
+         'sequence-length': 2, 'sequence-var-x': 2, 'sequence-var-y': 2}
+NGROUPS = 9
+
+
+def field_slots(labels, gran):
+    """gate slot of every field of a record: one gate for the whole record, one per family of
+    related variables, or one per field"""
+    if gran == 'record':
+        sl = [0] * len(labels)
+    elif gran == 'group':
+        sl = [8 if lab.startswith('alias:') else GROUP.get(lab, 0) for lab in labels]
+    else:
+        sl = list(range(len(labels)))
+    return [None if lab == 'ident' else k for lab, k in zip(labels, sl)]   # None: never gated
+
+
+def nslots(labels, gran):
+    return 1 if gran == 'record' else (NGROUPS if gran == 'group' else len(labels))
+
+
+def body_fields(kind, opts, batched, letters, syn=None, ys=False, entity=False):
     """ordered [(label, source)] of one record; only variables defined for this shape"""
+    if syn is None:
+        v, cond = var, iff
+    else:
+        v, cond = syn.var, syn.iff
     f = []
     for nm in FIXED:
         if nm == 'key' and not is_tuple_kind(kind):
             continue            # defined for 2-tuples only
         if nm in ('letter', 'Letter') and not letters:
             continue            # beyond 26 elements the letters are not documented
-        f.append(('sequence-' + nm, var('sequence-' + nm)))
+        f.append(('sequence-' + nm, v('sequence-' + nm)))
     for nm in TRUTH:
-        f.append(('if:sequence-' + nm, iff('sequence-' + nm)))
+        f.append(('if:sequence-' + nm, cond('sequence-' + nm)))
     if has_x(kind, opts):
-        f.append(('sequence-var-x', var('sequence-var-x')))
+        f.append(('sequence-var-x', v('sequence-var-x')))
+        if ys:
+            f.append(('sequence-var-y', v('sequence-var-y')))
         if not batched:
-            f.append(('first-x', var('first-x')))
-            f.append(('last-x', var('last-x')))
-            f.append(('if:first-x', iff('first-x')))
-            f.append(('if:last-x', iff('last-x')))
-        f.append(('name:x', var('x', True)))
-        f.append(('name:id', var('id', True)))
+            for a in ('x', 'y') if ys else ('x',):
+                f.append(('first-' + a, v('first-' + a)))
+                f.append(('last-' + a, v('last-' + a)))
+                f.append(('if:first-' + a, cond('first-' + a)))
+                f.append(('if:last-' + a, cond('last-' + a)))
+        f.append(('name:x', v('x', True)))
+        f.append(('name:id', v('id', True)))
     p = opts.get('prefix')
     if p:
         for nm in FIXED:
@@ -184,11 +270,22 @@ def body_fields(kind, opts, batched, letters):
                 continue
             if nm in ('letter', 'Letter') and not letters:
                 continue
-            f.append(('alias:' + nm, var('%s_%s' % (p, nm))))
+            f.append(('alias:' + nm, v('%s_%s' % (p, nm))))
+    if entity and syn is not None and syn.style != 'epfs':
+        # the entity spelling of a plain read (values here contain nothing html_quote changes;
+        # the element itself is left to the tag spelling: a mapping prints with quotes)
+        out = []
+        for k, (lab, src) in enumerate(f):
+            if (k % 2 == 0 and not lab.startswith(('if:', 'name:'))
+                    and lab not in ('sequence-item', 'alias:item')):
+                name = ('%s_%s' % (p, lab[6:]) if lab.startswith('alias:') else lab)
+                src = syn.entity(name)
+            out.append((lab, src))
+        f = out
     return f
 
 
-def after_names(opts, batched):
+def after_names(opts, batched, case=None):
     p = opts.get('prefix') or 'p'
     names = ['sequence-' + nm for nm in FIXED]
     names += ['sequence-var-x', 'first-x', 'last-x', 'x', 'id', 'mapping']
@@ -196,6 +293,10 @@ def after_names(opts, batched):
     if batched:
         names += ['sequence-step-size', 'next-sequence', 'previous-sequence',
                   'sequence-step-start-index']
+    if case and case.get('ys'):
+        names += ['sequence-var-y', 'first-y', 'last-y', 'y']
+    if case and (case.get('gate') or {}).get('by') == 'attr':
+        names += ['g']
     return names
 
 
@@ -209,8 +310,8 @@ def outer_namespace(opts):
 
 
 def in_attrs(opts, form='name', seqname='seq', batch=None):
-    a = [seqname if form == 'name' else ('expr="%s"' % seqname if form == 'expr'
-                                          else '"%s"' % seqname)]
+    a = [{'name': seqname, 'name=': 'name=%s' % seqname, 'expr': 'expr="%s"' % seqname,
+          'quoted': '"%s"' % seqname}[form]]
     if opts.get('mapping'):
         a.append('mapping')
     if opts.get('no_push_item'):
@@ -234,18 +335,85 @@ def in_attrs(opts, form='name', seqname='seq', batch=None):
     return ' '.join(a)
 
 
+def permuted(fields, seed):
+    """the fields of a record in another reading order (own LCG: no hidden random state)"""
+    f = list(fields)
+    st = (seed * 2654435761 + 12345) & 0xffffffff
+    for i in range(len(f) - 1, 0, -1):
+        st = (st * 1103515245 + 12345) & 0x7fffffff
+        j = st % (i + 1)
+        f[i], f[j] = f[j], f[i]
+    return f
+
+
+def else_text(case):
+    return ELSE + 'EV' + ELSE2 if (case.get('syntax') or {}).get('rich_else') else ELSE
+
+
 def flat_source(case):
+    """-> (source, [(label, source of the field)]) ; optional case keys beyond the basic ones:
+    syntax {style, else: plain|named, end: plain|named|end, entity, rich_else}, gate {by: index|attr,
+    gran: record|group|field, rows: [bit mask of open slots per position (index) / element (attr)]},
+    ys (a second attribute with its own runs), perm (reading order of the fields)"""
     opts = case['opts']
     batch = case.get('batch')
     n = len(case['xs'])
-    fields = body_fields(case['kind'], opts, bool(batch), n <= 26)
-    body = F.join(s for _, s in fields) + R
-    src = ['B', G, '<dtml-in ', in_attrs(opts, case.get('form', 'name'), 'seq', batch), '>', body]
+    sx = case.get('syntax') or {}
+    syn = Syn(sx.get('style', 'dtml'))
+    form = case.get('form', 'name')
+    fields = body_fields(case['kind'], opts, bool(batch), n <= 26, syn,
+                         bool(case.get('ys')), bool(sx.get('entity')))
+    if case.get('perm') is not None:
+        fields = permuted(fields, case['perm'])
+    gate = case.get('gate')
+    if gate:
+        # what identifies the element is printed on every element; everything else is read only
+        # where its gate is open
+        fields = [('ident', syn.var('sequence-key' if is_tuple_kind(case['kind'])
+                                    else 'sequence-item'))] + fields
+        slots = field_slots([lab for lab, _ in fields], gate['gran'])
+        pat = "gate[_['sequence-index']][%d]" if gate['by'] == 'index' else 'g[%d]'
+        printed = [s if slots[k] is None else syn.gated(pat % slots[k], s)
+                   for k, (_, s) in enumerate(fields)]
+    else:
+        printed = [s for _, s in fields]
+    body = F.join(printed) + R
+    src = ['B', G, syn.open('in', in_attrs(opts, form, 'seq', batch)), body]
+    named = {'name': 'seq', 'name=': 'name=seq'}.get(form)
     if case.get('else'):
-        src += ['<dtml-else>', ELSE]
-    src += ['</dtml-in>', G, 'A']
-    src.append(F.join(var(nm, True) for nm in after_names(opts, bool(batch))))
+        src.append(syn.open('else', named if sx.get('else') == 'named' and named else ''))
+        if sx.get('rich_else'):      # an else body of several blocks
+            src += [ELSE, syn.var('ev', True), ELSE2]
+        else:
+            src.append(ELSE)
+    src += [syn.close('in', sx.get('end', 'plain') if named else 'plain'), G, 'A']
+    src.append(F.join(syn.var(nm, True) for nm in after_names(opts, bool(batch), case)))
     return ''.join(src), fields
+
+
+def case_extras(case, labels=None):
+    """-> (per element extra attributes or None, extra keyword arguments of the rendering)"""
+    n = len(case['xs'])
+    extras = [dict() for _ in range(n)]
+    kw = {}
+    ys = case.get('ys')
+    if ys:
+        for j in range(n):
+            extras[j]['y'] = ys[j]
+    gate = case.get('gate')
+    if gate:
+        if labels is None:
+            labels = [lab for lab, _ in flat_source(case)[1]]
+        k = nslots(labels, gate['gran'])
+        rows = [[bool((m >> s) & 1) for s in range(k)] for m in gate['rows']]
+        if gate['by'] == 'index':
+            kw['gate'] = rows
+        else:
+            for j in range(n):
+                extras[j]['g'] = rows[j]
+    if (case.get('syntax') or {}).get('rich_else'):
+        kw['ev'] = 'EV'
+    return (extras if (ys or (gate and gate['by'] == 'attr')) else None), kw
 
 
 def opts_code(opts):
@@ -337,12 +505,17 @@ class Harness:
         self.cache = {}
         self.tally = Tally()
 
-    def template(self, src):
+    def template(self, src, style='dtml'):
         t = self.cache.get(src)
         if t is None:
             if len(self.cache) > 3000:
                 self.cache.clear()
-            t = self.cache[src] = self.HTML(src)
+            if style == 'epfs':
+                from DocumentTemplate.DT_String import String
+                t = String(src)
+            else:
+                t = self.HTML(src)
+            self.cache[src] = t
             self.tally.c('templates compiled')
         return t
 
@@ -355,16 +528,38 @@ class Harness:
         xs = case['xs']
         n = len(xs)
         batch = case.get('batch')
-        elements, descs = build_elements(kind, xs, case.get('vals'))
-        seq = make_container(case['container'], elements)
         src, fields = flat_source(case)
+        extras, kwargs = case_extras(case, [lab for lab, _ in fields])
+        elements, descs = build_elements(kind, xs, case.get('vals'), extras)
+        if case.get('ys'):
+            for d, y in zip(descs, case['ys']):
+                d['y'] = y
+        seq = make_container(case['container'], elements)
         ns = {}
         if case.get('outer'):
             ns = outer_namespace(opts)
         desc = (case['family'], kind, case['container'], opts_code(opts), opts.get('prefix'),
                 case.get('form'), bool(case.get('else')), bool(case.get('outer')),
                 tuple(xs), tuple(case.get('vals') or ()), tuple(sorted((batch or {}).items())))
+        sx, gate = case.get('syntax'), case.get('gate')
+        if sx or gate or case.get('ys') or case.get('perm') is not None:
+            desc += (tuple(sorted((sx or {}).items())),
+                     (gate['by'], gate['gran'], tuple(gate['rows'])) if gate else None,
+                     tuple(case.get('ys') or ()), case.get('perm'))
         ctx.case(desc, n >= 1 or bool(case.get('else')))
+        style = (sx or {}).get('style', 'dtml')
+        if sx:
+            T.t('syntax', '%s/else %s/end %s%s%s' % (
+                style, sx.get('else', 'plain') if case.get('else') else 'absent',
+                sx.get('end', 'plain'), '/entities' if sx.get('entity') else '',
+                '/else of several blocks' if sx.get('rich_else') and case.get('else') else ''))
+            T.t('syntax styles', style)
+        if gate:
+            T.t('gates', '%s/%s' % (gate['by'], gate['gran']))
+        if case.get('ys'):
+            T.c('cases with a second run attribute y')
+        if case.get('perm') is not None:
+            T.c('cases with a permuted reading order')
         T.t('lengths', min(n, 27) if n <= 27 else 'more')
         T.t('kind x container', '%s/%s' % (kind, case['container']))
         T.t('option subsets', opts_code(opts))
@@ -375,8 +570,8 @@ class Harness:
         problems = []
         out = None
         try:
-            tmpl = self.template(src)
-            out = tmpl(None, ns, seq=seq)
+            tmpl = self.template(src, style)
+            out = tmpl(None, ns, seq=seq, **kwargs)
         except Exception as e:
             problems.append(('raise', 'render raised %s: %s' % (type(e).__name__, str(e)[:160])))
         if out is not None:
@@ -416,7 +611,7 @@ class Harness:
             return
         mid, after = parts[1], parts[2][1:]
         # ---- nothing bound after the end tag
-        names = after_names(opts, bool(batch))
+        names = after_names(opts, bool(batch), case)
         got = after.split(F)
         if len(got) != len(names):
             add(('after', 'probe after the end tag unparseable: %r' % show(after, 120)))
@@ -428,15 +623,21 @@ class Harness:
                     add(('after:' + nm, '%s visible after the end tag as %r (outer value %r)'
                          % (nm, g, want)))
         # ---- else body exactly when empty
+        etext = else_text(case)
         if n == 0:
             T.c('empty sequences')
-            want = ELSE if case.get('else') else ''
+            want = etext if case.get('else') else ''
+            if case.get('else'):
+                sx = case.get('syntax') or {}
+                T.t('else decided on an empty sequence', '%s/else %s/%s' % (
+                    sx.get('style', 'dtml'), sx.get('else', 'plain'),
+                    'batch' if batch else 'plain'))
             if mid != want:
                 add(('else', 'empty sequence rendered %r, expected %r' % (show(mid, 80), show(want))))
             return
-        if ELSE in mid:
+        if ELSE in mid or ELSE2 in mid:
             add(('else', 'else body rendered for a non-empty sequence'))
-            mid = mid.replace(ELSE, '')
+            mid = mid.replace(etext, '').replace(ELSE, '').replace(ELSE2, '')
         if not mid.endswith(R) and mid:
             add(('records', 'body output unparseable: %r' % show(mid, 120)))
             return
@@ -449,7 +650,7 @@ class Harness:
         first, last = window_of(n, batch)
         want_count = last - first + 1
         col = {lab: i for i, lab in enumerate(labels)}
-        items = [r[col['sequence-item']] for r in recs]
+        items = [r[col['ident' if 'ident' in col else 'sequence-item']] for r in recs]
         T.c('records compared', len(recs))
         if len(recs) != want_count:
             add(('count', 'body rendered %d times for %d displayed elements (%d..%d of %d)'
@@ -461,7 +662,8 @@ class Harness:
         by_ident = {}
         for d in descs:
             by_ident.setdefault(d['key'] if tup else d['text'], d)
-        idents = [r[col['sequence-key']] for r in recs] if tup else items
+        idents = ([r[col['ident' if 'ident' in col else 'sequence-key']] for r in recs]
+                  if tup else items)
         sort = opts.get('sort')
         rev = bool(opts.get('reverse'))
         unknown = [t for t in idents if t not in by_ident]
@@ -493,10 +695,41 @@ class Harness:
         nrec = len(recs)
         pfx = opts.get('prefix')
         pushes = has_x(kind, opts) and not opts.get('no_push_item')
+        gate = case.get('gate')
+        slots = field_slots(labels, gate['gran']) if gate else None
+        ys = bool(case.get('ys'))
+
+        def mask_at(i):
+            """open gate slots of shown record i (None: no gates)"""
+            if not gate:
+                return None
+            return gate['rows'][first - 1 + i if gate['by'] == 'index' else shown[i]['j']]
+
+        def opened(i, label):
+            m = mask_at(i)
+            return m is None or slots[col[label]] is None or bool((m >> slots[col[label]]) & 1)
+        if gate:
+            T.c('gated cases compared')
         for i, r in enumerate(recs):
             a = first - 1 + i
+            exp = {}
+
+            def gate_closed(label):
+                """a field behind a closed gate must print the skip token and nothing else"""
+                if opened(i, label):
+                    if gate:
+                        T.c('gated fields read')
+                    return False
+                T.c('gated fields skipped')
+                if r[col[label]] != SKIP:
+                    add(('gate', '%s printed %r on shown position %d although its gate is closed'
+                         % (label, r[col[label]], i)))
+                return True
 
             def chk(label, want, truth=False):
+                exp[label] = (want, truth)
+                if gate_closed(label):
+                    return
                 g = r[col[label]]
                 T.t('variables compared', label)
                 if truth:
@@ -511,6 +744,9 @@ class Harness:
             if 'sequence-letter' in col and a < 26:
                 chk('sequence-letter', 'abcdefghijklmnopqrstuvwxyz'[a])
                 chk('sequence-Letter', 'ABCDEFGHIJKLMNOPQRSTUVWXYZ'[a])
+            elif 'sequence-letter' in col:
+                gate_closed('sequence-letter')
+                gate_closed('sequence-Letter')
             chk('sequence-roman', roman(a + 1).lower())
             chk('sequence-Roman', roman(a + 1))
             for form in ('sequence-', 'if:sequence-'):
@@ -524,30 +760,61 @@ class Harness:
                 chk('sequence-key', d['key'])
             if not batch:
                 chk('sequence-length', str(n))
+            else:
+                gate_closed('sequence-length')
             if 'sequence-var-x' in col:
-                chk('sequence-var-x', str(d['x']))
-                if not batch:
-                    fx = i == 0 or shown[i - 1]['x'] != d['x']
-                    lx = i == nrec - 1 or shown[i + 1]['x'] != d['x']
-                    chk('first-x', fx, True)
-                    chk('if:first-x', fx, True)
-                    chk('last-x', lx, True)
-                    chk('if:last-x', lx, True)
+                for nm in ('x', 'y') if ys else ('x',):
+                    chk('sequence-var-' + nm, str(d[nm]))
+                    if batch:
+                        continue
+                    fx = i == 0 or shown[i - 1][nm] != d[nm]
+                    lx = i == nrec - 1 or shown[i + 1][nm] != d[nm]
+                    chk('first-' + nm, fx, True)
+                    chk('if:first-' + nm, fx, True)
+                    chk('last-' + nm, lx, True)
+                    chk('if:last-' + nm, lx, True)
+                    if gate:
+                        # the class of executions a per-element memo of the engine would get
+                        # wrong: a run boundary read here but not on the neighbouring element
+                        f_here = opened(i, 'first-' + nm) or opened(i, 'if:first-' + nm)
+                        l_here = opened(i, 'last-' + nm) or opened(i, 'if:last-' + nm)
+                        if f_here and i > 0 and not (opened(i - 1, 'first-' + nm)
+                                                     or opened(i - 1, 'if:first-' + nm)):
+                            T.c('first-x read on an element whose predecessor did not read it')
+                        if l_here and i < nrec - 1 and not (opened(i + 1, 'last-' + nm)
+                                                            or opened(i + 1, 'if:last-' + nm)):
+                            T.c('last-x read on an element whose successor does not read it')
                 if pushes:
                     chk('name:x', str(d['x']))
                     chk('name:id', d['id'])
                 elif opts.get('no_push_item'):
                     chk('name:x', ns.get('x', MISSING))
                     chk('name:id', ns.get('id', MISSING))
+                else:
+                    gate_closed('name:x')
+                    gate_closed('name:id')
             if pfx:
                 for nm in FIXED:
                     lab = 'alias:' + nm
                     if lab not in col:
                         continue
-                    T.t('variables compared', lab)
-                    if r[col[lab]] != r[col['sequence-' + nm]]:
-                        add((lab, '%s_%s=%r but sequence-%s=%r on shown position %d'
-                             % (pfx, nm, r[col[lab]], nm, r[col['sequence-' + nm]], i)))
+                    if gate_closed(lab):
+                        continue
+                    base = 'sequence-' + nm
+                    if opened(i, base):
+                        T.t('variables compared', lab)
+                        if r[col[lab]] != r[col[base]]:
+                            add((lab, '%s_%s=%r but sequence-%s=%r on shown position %d'
+                                 % (pfx, nm, r[col[lab]], nm, r[col[base]], i)))
+                    elif base in exp:
+                        # the sequence- form is not read on this element: the alias is held
+                        # against the documented value itself
+                        T.t('variables compared', lab)
+                        want, truth = exp[base]
+                        g = r[col[lab]]
+                        if not ((truthy(g) == want) if truth else g == want):
+                            add((lab, '%s_%s=%r on shown position %d (index %d), expected %s%r'
+                                 % (pfx, nm, g, i, a, 'truth ' if truth else '', want)))
             if len(problems) > 12:
                 break
 
